@@ -60,7 +60,7 @@ fn asn(i: u8) -> u32 {
 /// Customer / AS selectors of 100 and above name the k-th AS that is
 /// currently configured (ASPA customer, router key AS): requests about what
 /// exists are as frequent as requests about something new.
-fn resolve(req: &Req, st: &State) -> Req {
+fn resolve(req: &Req, st: &State, csr_keys: &[String]) -> Req {
     let existing_aspa: Vec<u32> = st.aspas.keys().copied().collect();
     let existing_bgpsec: Vec<u32> = st.bgpsec.iter().map(|b| b.0).collect();
     let idx_of = |a: u32| ASNS.iter().position(|x| *x == a).unwrap_or(0) as u8;
@@ -81,7 +81,25 @@ fn resolve(req: &Req, st: &State) -> Req {
             Req::Aspa { set, remove: remove.iter().map(|c| pick(*c, &existing_aspa)).collect() }
         }
         Req::AspaProviders { customer, add, remove } => Req::AspaProviders { customer: pick(*customer, &existing_aspa), add: add.clone(), remove: remove.clone() },
-        Req::Bgpsec { add, remove_existing, remove_other } => Req::Bgpsec { add: add.iter().map(|(a, c)| (pick(*a, &existing_bgpsec), *c)).collect(), remove_existing: remove_existing.clone(), remove_other: remove_other.clone() },
+        Req::Bgpsec { add, remove_existing, remove_other } => Req::Bgpsec {
+            add: add
+                .iter()
+                .map(|(a, c)| {
+                    // a key selector of 100 and above with an AS selector of 100 and above names an
+                    // existing definition as a whole: the same AS and the same router key again
+                    if *a >= 100 && *c >= 100 && !st.bgpsec.is_empty() {
+                        let defs: Vec<&(u32, String)> = st.bgpsec.iter().collect();
+                        let (asn_, key) = defs[(*a as usize - 100) % defs.len()];
+                        let ci = csr_keys.iter().position(|k| k.to_uppercase() == *key).unwrap_or(0) as u8;
+                        (idx_of(*asn_), ci)
+                    } else {
+                        (pick(*a, &existing_bgpsec), *c % 7)
+                    }
+                })
+                .collect(),
+            remove_existing: remove_existing.clone(),
+            remove_other: remove_other.clone(),
+        },
         other => other.clone(),
     }
 }
@@ -403,7 +421,7 @@ fn req_strategy() -> BoxedStrategy<Req> {
             Req::Aspa { set, remove }
         }),
         3 => (cust(), vec(asn_i(), 0..3), vec(asn_i(), 0..3)).prop_map(|(customer, add, remove)| Req::AspaProviders { customer, add, remove }),
-        3 => (vec((cust(), 0u8..7), 0..3), vec(any::<u16>(), 0..2), vec((asn_i(), 0u8..6), 0..2))
+        3 => (vec((cust(), prop_oneof![3 => 0u8..7, 2 => Just(100u8)]), 0..3), vec(any::<u16>(), 0..2), vec((asn_i(), 0u8..6), 0..2))
             .prop_map(|(add, remove_existing, remove_other)| Req::Bgpsec { add, remove_existing, remove_other }),
         2 => (0u8..3, prop_oneof![4 => Just(false), 1 => Just(true)], mask()).prop_map(|(child, under_ta, res)| Req::ChildAdd { child, under_ta, res }),
         2 => (0u8..3, mask()).prop_map(|(child, res)| Req::ChildUpdate { child, res }),
@@ -478,7 +496,7 @@ impl Prop for C05 {
         let mut classes: BTreeSet<String> = BTreeSet::new();
         for (i, req) in case.reqs.iter().enumerate() {
             let held = held(&sim);
-            let req = &resolve(req, &st);
+            let req = &resolve(req, &st, &csr_keys);
             let expect = model(&st, &held, req, &csr_keys, &ta_children);
             let served_before = sim.w().served_for(CA).unwrap_or_default();
             let tasks_before: BTreeSet<String> = sim.w().pending_tasks().into_iter().map(|t| t.1).collect();
